@@ -1072,6 +1072,28 @@ func (cs *ConsensusState) enterNewRound(height uint64, round uint32) {
 	}
 	cs.Votes.SetRound(round + 1) // also track next round (round+1) to allow round-skipping
 	cs.TriggeredTimeoutPrecommit = false
+	// A round skip may have carried us over a round for which we already hold a polka: addVote's
+	// unlock test (LockedRound < vote.Round <= cs.Round) was false when that polka completed and
+	// is not evaluated again unless a further prevote of that round arrives. Release a lock that
+	// such a polka (for nil or another block) has overtaken.
+	if cs.LockedBlock != nil {
+		for r := cs.LockedRound + 1; r <= round; r++ {
+			prevotes := cs.Votes.Prevotes(r)
+			if prevotes == nil {
+				continue
+			}
+			if blockID, ok := prevotes.TwoThirdsMajority(); ok && !cs.LockedBlock.HashesTo(blockID.Hash) {
+				logger.Info("Unlocking because of POL seen before a round skip.", "lockedRound", cs.LockedRound, "POLRound", r)
+				cs.LockedRound = 0
+				cs.LockedBlock = nil
+				cs.LockedBlockParts = nil
+				if err := cs.eventBus.PublishEventUnlock(cs.RoundStateEvent()); err != nil {
+					cs.Logger.Error("Error publishing event unlock", "err", err)
+				}
+				break
+			}
+		}
+	}
 	if err := cs.eventBus.PublishEventNewRound(cs.NewRoundEvent()); err != nil {
 		cs.Logger.Error("Error publishing new round", "err", err)
 	}
